@@ -11,17 +11,17 @@ NOTE = ('trusted: clang 14 front end (C++ -> IR), vplib/ll2c.py IR->C printer, C
 CLAIMED = {
     'C01': ('scaled_integer +,-,*,unary -: the value relation ret*R^e == l*R^El (op) r*R^Er is a postcondition of every layer (default_scale, '
             'aligned tag-level operator, wrapper-level operator, public operator), callers proved against callee contracts, for all rep values; '
-            'the exponent and promoted-rep rules are compile-time facts compared with the statement', '5 C01',
+            'the exponent, radix and promoted-rep rules of the result type are compile-time facts compared with the statement; unary minus and built-in integer operands (exponent 0) as whole-operator jobs', '5 C01',
             'multiplication claimed to 32x32-bit reps; CNL-wrapper reps via C05/C11'),
     'C02': ('/ and % on scaled_integer proved to be the built-in operators on the reps (layers L2/L3) with exponents exp(a)-exp(b) / exp(a); '
             'built-in / and % proved against the division-free definition for 8/16-bit operands; quotient() proved to be the truncated true quotient for every input', '5 C02',
             'machine division at 32/64 bits trusted to obey the language definition; radix 2 only'),
     'C03': ('each comparison operator on scaled_integer (all exponent orders, built-in operand) and elastic_integer (all digit/signedness mixes) is '
-            'proved equal to the true relation of the exponent-aligned reps / of the values, for all operand values', '5 C03', 'wide_integer comparisons under C10'),
+            'proved equal to the true relation of the exponent-aligned reps / of the values, for all operand values; built-in integer operands on either side', '5 C03', 'wide_integer comparisons under C10'),
     'C04': ('scaled_integer conversions: integer->integer (value preserved / truncated toward zero at the destination resolution) on the tag-level convert operator and the '
-            'converting constructor, integer->float as the correctly rounded value with the identity round trip, float->integer as truncation of the exactly scaled value, for all source values in range', '5 C04',
-            'long double not modelled (x87); 64-bit reps to double and radix 10 not claimed'),
-    'C05': ('elastic_integer + - * / %: exact result and result within the digits the library reports, as postconditions of the tag-level, wrapper-level and public '
+            'converting constructor, scaled_integer <-> built-in integer, integer->float as the correctly rounded value (incl. 64-bit reps) with the identity round trip, float->integer as truncation of the exactly scaled value, for all source values in range', '5 C04',
+            'long double not modelled (x87); radix 10 not claimed'),
+    'C05': ('elastic_integer + - * / % and unary -: exact result and result within the digits the library reports, as postconditions of the tag-level, wrapper-level and public '
             'operators; the built-in operator on the result rep is replaced by the contract "no wrap", so a too-narrow rep or digit rule fails a call-site precondition', '5 C05',
             'multiplication/division claimed up to the SAT budget (<= 64 result bits); multi-word storage under C10'),
     'C06': ('overflow detection iff the exact result leaves the result range, and the per-tag reaction, as contracts on is_overflow / builtin_overflow_operator / '
@@ -31,28 +31,28 @@ CLAIMED = {
     'C07': ('the whole tagged operator with every callee inlined: every UB flag of the IR (nsw, shift count, sdiv, unreachable/CNL_ASSERT) is a discharged obligation '
             'for all operands except zero divisor / negative shift count, both detection paths, debug and NDEBUG flavours', '5 C07', 'as C06'),
     'C08': ('division under nearest / tie-to-+inf / floor / native rounding: division-free correctly-rounded-quotient postconditions for all (a,b) of 8-bit (quick) and 16/32-bit (thorough) reps, '
-            'through the tag-level operator, the wrapper-level operator and rounding_integer operator/', '5 C08', '64-bit reps and mixed signedness not claimed; neg_inf >= 16 bit not claimed'),
-    'C09': ('rounding conversions: finer->coarser scaled_integer under nearest / tie-to-+inf / floor with division-free correctly-rounded postconditions for all source values whose result is representable; '
+            'through the tag-level operator, the wrapper-level operator and rounding_integer operator/; the non-division operators of rounding_integer under the three non-native tags against the built-in expression', '5 C08', '64-bit reps and mixed signedness not claimed; signed 32-bit tie_to_pos_inf / neg_inf not claimed (solver timeout)'),
+    'C09': ('rounding conversions: finer->coarser scaled_integer and scaled_integer->built-in integer under nearest / tie-to-+inf / floor with division-free correctly-rounded postconditions for all source values whose result is representable; '
             'float/double -> integer under tie-to-+inf and floor through CBMC IEEE-754; the float-adjacent-to-tie defect is a KNOWN-FINDING', '5 C09',
             'nearest float->integer uses long double (x87): refused; long double sources not claimed'),
-    'C10': ('wide_integer beyond 128 bits: + - unary- & | ^ == < on the public operators proved equal to the storage-width two\'s-complement operation on the concatenated limbs, '
+    'C10': ('wide_integer beyond 128 bits: + - unary- & | ^, all six comparisons, ++ --, construction from / conversion to built-in integers, and << >> by each constant count of a boundary-rich set, on the public operators proved equal to the storage-width two\'s-complement operation on the concatenated limbs, '
             'for all operand values, limb loops closed by complete unwinding; same contracts for 16/32/64-bit limbs (thorough)', '5 C10',
-            'multi-limb * / %, shifts with symbolic count, decimal text and float conversion are beyond the back ends here (not claimed)'),
+            'multi-limb * / %, shifts with a SYMBOLIC count, decimal text and float conversion are beyond the back ends here (not claimed); operator~ does not compile beyond 128 bits'),
     'C11': ('static_integer / static_number: public + - * (and / , narrowing conversion in the thorough tier) with the whole overflow/elastic/rounding/wide tower inlined: exact (or correctly rounded) result within the declared digits of the result type, '
             'or the tag\'s overflow reaction; operation chains follow from requires = ensures-type-invariant', '5 C11',
             'small digit counts only (7..15): whole-tower inlining is memory-bound; multi-word storage under C10'),
     'C12': ('native-tag wrappers: every public operator (and wrapper-level / plain-operator layer) proved equal to the built-in expression on the reps under exactly the precondition '
-            '"the built-in expression is defined", for all operand values; promoted result type as compile-time fact', '5 C12', '64x64-bit multiply/divide equalities not claimed'),
+            '"the built-in expression is defined", for all operand values; promoted result type as compile-time fact; unary - + ~, compound assignment, pre/post ++ -- and wrapper-vs-built-in comparisons as whole-operator jobs; the GCC detection path under native_overflow_tag for + - *', '5 C12', '64x64-bit multiply/divide equalities not claimed'),
     'C13': ('integer to_chars: DFCC frame obligation assigns([first,last)), pointer/bounds obligations, and the result contract (ptr in (first,last] on success, ptr == last && value_too_large on failure, '
-            'bytes after ptr untouched) for every value and every buffer length 0..capacity+2; to_chars_static never fails; recursion closed by complete unwinding', '5 C13',
-            'scaled_integer / wide to_chars and operator<< not claimed'),
-    'C14': ('integer text: the characters written by to_chars are the canonical decimal numeral of exactly the value (length, sign, every digit through a ghost index) for all values of 8/16-bit (quick) and 32-bit (thorough) integers', '5 C14',
-            'scaled_integer text, 64-bit and wide integers, to_string/operator<< not claimed'),
+            'bytes after ptr untouched) for every value and every buffer length 0..capacity+2, bases 10, 2, 16 (36 thorough); to_chars_static never fails; recursion closed by complete unwinding', '5 C13',
+            'scaled_integer / wide / 64-bit to_chars and operator<< not claimed'),
+    'C14': ('integer text: the characters written by to_chars are the canonical numeral of exactly the value (length, sign, every digit through a ghost index) in bases 10 and 16 (11, 36 thorough) for all values of 8/16-bit (quick) and uint32_t (thorough) integers', '5 C14',
+            'scaled_integer text, int32_t, 64-bit and wide integers, to_string/operator<< not claimed'),
     'C15': ('BOUNDED stand-in, not a proof: run-time cnl::_impl::parse<int64_t>(char const*) (the algorithm the literal operators evaluate at compile time: strlen, scan_string, scan_base, scan_msb, parse_string and the digit/scale lambdas, '
             'all real extracted bodies) returns exactly the value the token denotes for every well-formed decimal / hexadecimal / octal / binary token, positive and negative, of at most 6/5/6/8 digits (quick) and 10/8/10/16 digits (thorough), '
             'all loops closed by complete unwinding for that bound; requires/ensures enforced by the harness (assume/assert) because DFCC instrumentation of the function-pointer dispatch ran out of memory', '5 C15',
             'NOT covered: the literal operators _c/_cnl/_cnl2/_wide and constant<>-driven deduction themselves (compile-time only: no function remains in the IR), digit separators, fractional parts, tokens beyond the bound (chunk boundaries not crossed), frame condition', 'model_checking'),
-    'C16': ('fraction: rational-value postconditions for + - * / and the six comparisons (8/16-bit components), reduce / canonical / std::hash for all int8_t fractions '
+    'C16': ('fraction: rational-value postconditions for + - * /, unary - +, and the six comparisons (8/16-bit components), reduce / canonical / std::hash for all int8_t fractions '
             '(std::gcd unwound completely), conversion to float', '5 C16', '>= 32-bit reduce/hash not claimed; multiplication abstracted as an uninterpreted function for the relational clauses'),
     'C18': ('every bit/digit utility of cnl/bit.h and cnl/numeric.h at each width and under both preprocessor configurations carries a contract stating the C++20 <bit> definition as a closed '
             'bit-vector characterisation; CBMC discharges each postcondition and every UB obligation for all 2^N values; recursive definitions proved inductively (--enforce-contract-rec)', '5 C18',
